@@ -717,6 +717,8 @@ pub fn random_run(rng: &mut Rng, run_no: u64, len: usize, out: &mut Out) {
                         _ => {}
                     }
                 }
+                // (an address may be named twice for removal: the group must count it once)
+                if rng.chance(1, 6) && !remove.is_empty() { let d = remove[0].clone(); remove.push(d); }
                 json!({"act":"group_update","by": if rng.chance(1,8) {"a1"} else {"ga"},"args":{"add":add,"remove":remove}})
             }
             94 if rng.chance(1, 2) => json!({"act":"hook","by":rng.pick(&["a1","a2","ga","creator"]),"args":{"addr":rng.pick(&USERS),"old":*rng.pick(&[-1i64,1,3]),"new":*rng.pick(&[-1i64,0,5])}}),
